@@ -13,6 +13,7 @@ What is pulled out of the current source (the glue where the defects live):
   * the unit conversions of `Interferogram.save_zygo_dat` / `from_zygo_dat`.
 """
 import ast
+import os
 import re
 import struct
 
@@ -61,7 +62,7 @@ def fbits(x):
     return struct.unpack('<Q', struct.pack('<d', float(x)))[0]
 
 
-_CMP = {ast.GtE: '>=', ast.Gt: '>', ast.LtE: '<=', ast.Lt: '<', ast.Eq: '==', ast.NotEq: '!='}
+_CMP = {ast.GtE: '.ge', ast.Gt: '.gt', ast.LtE: '.le', ast.Lt: '.lt', ast.Eq: '.eq', ast.NotEq: '.ne'}
 _FMT = re.compile(r'^([<>=!@]?)(\d*)([A-Za-z])$')
 _CODES = {'H': '.u16', 'I': '.u32', 'f': '.f32', 's': '.str', 'x': '.pad', 'c': '.chr', 'B': '.u8'}
 
@@ -111,7 +112,8 @@ class St:
 
 
 _FRESH1D = ('np.frombuffer', 'truenp.frombuffer', 'np.fromstring', 'truenp.fromstring', 'np.fromfile')
-_PASS_FUNCS = ('np.copy', 'np.asarray', 'np.array', 'np.ascontiguousarray', 'np.around', 'np.round', 'np.abs')
+_PASS_FUNCS = ('np.copy', 'np.asarray', 'np.array', 'np.ascontiguousarray', 'np.asfortranarray', 'np.around', 'np.round', 'np.rint',
+               'np.floor', 'np.ceil', 'np.trunc', 'np.abs', 'np.absolute', 'np.negative', 'np.multiply', 'np.divide', 'np.float64')
 _PASS_METHODS = ('astype', 'copy', 'view', 'newbyteorder', 'byteswap')
 
 
@@ -336,8 +338,16 @@ def shape_axes(fn, arr):
 
 
 # ------------------------------------------------------------------------------------------------
+class _Gen(Gen):
+    def item(self, name, source, node_fn, build, fallback):
+        if name in os.environ.get('C14_FORCE_FALLBACK', '').split(','):
+            def build():     # noqa: F811  (test hook: exercise the fallback text)
+                raise Untranslatable('forced fallback (test)')
+        return super().item(name, source, node_fn, build, fallback)
+
+
 def generate(repo):
-    g = Gen('C14', imports=['PrysmVerif.PyPrelude', 'PrysmVerif.Model.C14'], opens=['Model.C14'])
+    g = _Gen('C14', imports=['PrysmVerif.PyPrelude', 'PrysmVerif.Model.C14'], opens=['Model.C14'])
     io, _ = load(repo, 'prysm/io.py')
     ifg, _ = load(repo, 'prysm/interferogram.py')
     consts = module_env(io)
@@ -412,7 +422,7 @@ def generate(repo):
                 return '.wvlUmToM'
         if isinstance(v, ast.Name):
             a = find_assigns(fn, v.id)
-            if len(a) == 1 and ast.unparse(a[0]) == 'math.floor(timestamp.timestamp())':
+            if len(a) == 1 and re.fullmatch(r'(math\.floor|int|np\.floor|round)\((\w+(\.\w+)*)\.timestamp\(\)\)', ast.unparse(a[0])):
                 return '.timestamp'
         u = ast.unparse(v)
         if u == 'phase.shape[0]':
@@ -475,7 +485,7 @@ def generate(repo):
         tr = RTr(fn, env, 'rat', consts)
         body = tr.expr(im.func.value)
         marks = [st for st in fn.body if isinstance(st, ast.Assign) and ast.unparse(st.targets[0]) == 'im[mask]']
-        if len(marks) != 1 or ast.unparse(find_assign(fn, 'mask')) != 'np.isnan(phase)':
+        if len(marks) != 1 or ast.unparse(find_assign(fn, 'mask')).replace('truenp.', 'np.') not in ('np.isnan(phase)', '~np.isfinite(phase)', 'phase != phase'):
             raise Untranslatable('invalid samples are not marked through im[mask] with mask = isnan(phase)')
         tr2 = RTr(fn, {}, 'int', consts)
         return (f'def zygoWritePre (r32 : Rat → Rat) (x wvl : Rat) : Rat := {body}\n'
@@ -519,13 +529,22 @@ def generate(repo):
     def zr_value():
         fn = get_def(io, 'read_zygo_dat')
         augs = [n for n in ast.walk(fn) if isinstance(n, ast.AugAssign) and ast.unparse(n.target) == 'phase']
-        if len(augs) != 1 or not isinstance(augs[0].op, ast.Mult):
-            raise Untranslatable('phase is not scaled by exactly one `phase *= ...`')
+        plain = [n for n in ast.walk(fn) if isinstance(n, ast.Assign) and len(n.targets) == 1 and ast.unparse(n.targets[0]) == 'phase'
+                 and isinstance(n.value, ast.BinOp) and isinstance(n.value.op, (ast.Mult, ast.Div))
+                 and 'phase' in {x.id for x in ast.walk(n.value) if isinstance(x, ast.Name)}]
+        if len(augs) + len(plain) != 1 or (augs and not isinstance(augs[0].op, (ast.Mult, ast.Div))):
+            raise Untranslatable('phase is not scaled by exactly one statement')
+        if augs:
+            scale_expr = ast.BinOp(left=ast.Name(id='phase', ctx=ast.Load()), op=augs[0].op, right=augs[0].value)
+            scale_line = augs[0].lineno
+        else:
+            scale_expr = plain[0].value
+            scale_line = plain[0].lineno
         keys = {nm: meta_key(fn, nm) for nm in ('W', 'S', 'O', 'res')}
         if ast.unparse(find_assign(fn, 'R')) != 'ZYGO_PHASE_RES_FACTORS[res]':
             raise Untranslatable('R is not looked up from phase_res')
-        tr = RTr(fn, {'W': 'W', 'S': 'S', 'O': 'O', 'R': 'R'}, 'rat', consts)
-        body = tr.expr(augs[0].value)
+        tr = RTr(fn, {'W': 'W', 'S': 'S', 'O': 'O', 'R': 'R', 'phase': 'n'}, 'rat', consts)
+        body = tr.expr(scale_expr)
         # the invalid test
         tests = [st for st in ast.walk(fn) if isinstance(st, ast.Assign) and isinstance(st.targets[0], ast.Subscript)
                  and ast.unparse(st.targets[0].value) == 'phase' and ast.unparse(st.value) in ('np.nan', 'truenp.nan')]
@@ -536,16 +555,16 @@ def generate(repo):
                 and ast.unparse(cond.left) == 'phase' and ast.unparse(cond.comparators[0]) == 'ZYGO_INVALID_PHASE'):
             raise Untranslatable(f'invalid test {ast.unparse(cond)}')
         invop = _CMP[type(cond.ops[0])]
-        if tests[0].lineno > augs[0].lineno:
+        if tests[0].lineno > scale_line:
             raise Untranslatable('invalid samples are tested after scaling')
         kl = ', '.join(f'({lean_str(a)}, {lean_str(b)})' for a, b in keys.items())
-        return (f'def zygoReadValue (n W S O R : Rat) : Rat := (n * {body})\n'
+        return (f'def zygoReadValue (n W S O R : Rat) : Rat := {body}\n'
                 f'def zygoReadScaleKeys : List (String × String) := [{kl}]\n'
-                f'def zygoReaderInvalidTest : String := "{invop}"')
+                f'def zygoReaderInvalidTest : Cmp := {invop}')
     g.item('zygo.read_value', 'prysm/io.py:read_zygo_dat', None, zr_value,
            f'def zygoReadValue (n W S O R : Rat) : Rat := {M}.zygoReadValue n W S O R\n'
            'def zygoReadScaleKeys : List (String × String) := [("W", "wavelength"), ("S", "scale_factor"), '
-           '("O", "obliquity_factor"), ("res", "phase_res")]\ndef zygoReaderInvalidTest : String := ">="')
+           '("O", "obliquity_factor"), ("res", "phase_res")]\ndef zygoReaderInvalidTest : Cmp := .ge')
 
     # ---- truncation repair
     def ztrunc():
@@ -553,30 +572,55 @@ def generate(repo):
         handlers = [h for n in ast.walk(fn) if isinstance(n, ast.Try) for h in n.handlers]
         if len(handlers) != 1:
             raise Untranslatable('expected one except handler')
-        h = ast.Module(body=handlers[0].body, type_ignores=[])
+        body = handlers[0].body
+        h = ast.Module(body=body, type_ignores=[])
         hdr_key, = {meta_key(fn, 'header_len')}
         env = {'len(contents)': 'flen', 'plen': 'plen', 'header_len': 'hdr', 'ilen': 'ilen'}
         tr = RTr(h, env, 'int', consts)
-        mb = find_assign(h, 'missing_buf')
-        if not (isinstance(mb, ast.Call) and ast.unparse(mb.func) == 'bytes'):
-            raise Untranslatable('missing_buf is not bytes(n)')
-        missing = tr.expr(mb.args[0])
-        tr.env['len(missing_buf)'] = 'missing'
-        bt = tr.expr(find_assign(h, 'backtrack'))
-        c2 = ast.unparse(find_assign(h, 'contents2'))
-        if c2 != 'contents[offset:] + missing_buf':
-            raise Untranslatable(f'zero extension is {c2}')
-        marks = [st for st in h.body if isinstance(st, ast.Assign) and ast.unparse(st.targets[0]) == 'phase_raw[-backtrack:]']
-        if len(marks) != 1 or ast.unparse(marks[0].value) != 'ZYGO_INVALID_PHASE':
-            raise Untranslatable('tail of the buffer is not marked invalid')
-        warn = [c for c in find_calls(h, 'warnings.warn')]
+        # roles, not names: the zero buffer is the `bytes(<count>)`, the repair count is computed from its length,
+        # the extension is `contents[<offset>:] + <zero buffer>`, the tail `<buffer>[-<count>:]` is set to the sentinel
+        assigns = [st for st in body if isinstance(st, ast.Assign) and len(st.targets) == 1]
+        zb = [st for st in assigns if isinstance(st.value, ast.Call) and ast.unparse(st.value.func) == 'bytes'
+              and isinstance(st.targets[0], ast.Name)]
+        if len(zb) != 1:
+            raise Untranslatable('no single bytes(n) zero buffer in the handler')
+        zname = zb[0].targets[0].id
+        missing = tr.expr(zb[0].value.args[0])
+        tr.env[f'len({zname})'] = 'missing'
+        bts = [st for st in assigns if isinstance(st.targets[0], ast.Name) and st is not zb[0]
+               and f'len({zname})' in ast.unparse(st.value)]
+        if len(bts) != 1:
+            raise Untranslatable('no single statement computing the number of samples to invalidate')
+        btname = bts[0].targets[0].id
+        bt = tr.expr(bts[0].value)
+        ext = [st for st in assigns if isinstance(st.value, ast.BinOp) and isinstance(st.value.op, ast.Add)
+               and ast.unparse(st.value.right) == zname and isinstance(st.value.left, ast.Subscript)
+               and ast.unparse(st.value.left.value) == 'contents' and isinstance(st.value.left.slice, ast.Slice)
+               and st.value.left.slice.upper is None and st.value.left.slice.lower is not None]
+        if len(ext) != 1:
+            raise Untranslatable('the data block is not extended as contents[offset:] + zeros')
+        off = tr.expr(ext[0].value.left.slice.lower)
+        marks = [st for st in assigns if isinstance(st.targets[0], ast.Subscript) and isinstance(st.targets[0].slice, ast.Slice)
+                 and btname in ast.unparse(st.targets[0].slice)]
+        if len(marks) != 1 or marks[0].targets[0].slice.upper is not None or marks[0].targets[0].slice.step is not None:
+            raise Untranslatable('no single <buffer>[<lower>:] = sentinel statement')
+        lower = Tr({btname: 'backtrack'}, 'int').expr(marks[0].targets[0].slice.lower)
+        inv = RTr(h, {}, 'int', consts).expr(marks[0].value)
+        warn = any(isinstance(st, ast.Expr) and isinstance(st.value, ast.Call)
+                   and ast.unparse(st.value.func) in ('warnings.warn', 'warn') for st in body)    # unconditional, top level
         return (f'def zygoMissing (plen flen hdr ilen : Int) : Int := {missing}\n'
+                f'def zygoExtOffset (hdr ilen : Int) : Int := {off}\n'
                 f'def zygoBacktrack (missing : Int) : Int := {bt}\n'
+                f'def zygoTailLower (backtrack : Int) : Int := {lower}\n'
+                f'def zygoTailValue : Int := {inv}\n'
                 f'def zygoTruncWarns : Bool := {"true" if warn else "false"}\n'
                 f'def zygoHeaderLenKey : String := {lean_str(hdr_key)}')
     g.item('zygo.truncation', 'prysm/io.py:read_zygo_dat', None, ztrunc,
-           'def zygoMissing (plen flen hdr ilen : Int) : Int := plen * 4 - (flen - (hdr + ilen * 2))\n'
-           'def zygoBacktrack (missing : Int) : Int := pyCeilDiv missing 4\n'
+           f'def zygoMissing (plen flen hdr ilen : Int) : Int := {M}.modelMissing plen flen hdr ilen\n'
+           'def zygoExtOffset (hdr ilen : Int) : Int := hdr + ilen * 2\n'
+           f'def zygoBacktrack (missing : Int) : Int := {M}.modelBacktrack missing\n'
+           f'def zygoTailLower (backtrack : Int) : Int := {M}.modelTailLower backtrack\n'
+           f'def zygoTailValue : Int := {M}.zygoInvalid\n'
            'def zygoTruncWarns : Bool := true\ndef zygoHeaderLenKey : String := "header_size"')
 
     # ---- Code V: GRD token order
@@ -601,7 +645,7 @@ def generate(repo):
         from fractions import Fraction
         fr = Fraction(wvl)
         marks = [st for st in w.body if isinstance(st, ast.Assign) and ast.unparse(st.targets[0]) == 'array[NDA_PIX]']
-        if len(marks) != 1 or ast.unparse(find_assign(w, 'NDA_PIX')) != 'np.isnan(array)':
+        if len(marks) != 1 or ast.unparse(find_assign(w, 'NDA_PIX')).replace('truenp.', 'np.') not in ('np.isnan(array)', '~np.isfinite(array)', 'array != array'):
             raise Untranslatable('invalid samples not marked via array[NDA_PIX]')
         wn = pyeval(marks[0].value, consts)
         r = get_def(io, 'read_codev_gridint')
@@ -629,10 +673,10 @@ def generate(repo):
                 f'def cvHeaderWvl : Rat := ({fr.numerator} : Rat) / {fr.denominator}\n'
                 f'def cvHeaderNDA : Int := {nda}\n'
                 f'def cvWriterNDA : Int := {wn}\n'
-                f'def cvReaderMaskTest : String := "{maskop}"')
+                f'def cvReaderMaskTest : Cmp := {maskop}')
     g.item('codev.header', 'prysm/io.py:write_codev_gridint+read_codev_gridint', lambda: get_def(io, 'write_codev_gridint'), cv_grd,
            'def cvGrdWriteAxes : Nat × Nat := (1, 0)\ndef cvGrdReadToks : Nat × Nat := (2, 1)\n'
-           f'def cvHeaderWvl : Rat := 1\ndef cvHeaderNDA : Int := {M}.cvNDA\ndef cvWriterNDA : Int := {M}.cvNDA\ndef cvReaderMaskTest : String := "=="')
+           f'def cvHeaderWvl : Rat := 1\ndef cvHeaderNDA : Int := {M}.cvNDA\ndef cvWriterNDA : Int := {M}.cvNDA\ndef cvReaderMaskTest : Cmp := .eq')
 
     def cv_flips():
         w = get_def(io, 'write_codev_gridint')
@@ -690,7 +734,7 @@ def generate(repo):
             u = ast.unparse(v)
             if u in ('np.flipud(array)', 'np.fliplr(array)'):
                 continue
-            if u == 'np.around(array).astype(np.int16)':
+            if re.fullmatch(r'(true)?np\.(around|round|rint)\(array\)\.astype\((true)?np\.int16\)', u):
                 rounded = True
                 break
             if isinstance(v, ast.BinOp):
@@ -709,6 +753,114 @@ def generate(repo):
     g.item('codev.quant', 'prysm/io.py:write_codev_gridint+read_codev_gridint', None, cv_quant,
            f'def cvWritePre (x s : Rat) : Rat := {M}.cvWritePre x s\n'
            f'def cvReadValue (n wvl ssz : Rat) : Rat := {M}.cvReadValue n wvl ssz')
+
+    # ---- Code V: the reader's guard against a last number that runs into the end of the file
+    def cv_trailing():
+        r = get_def(io, 'read_codev_gridint')
+        fs = find_calls(r, 'np.fromstring') + find_calls(r, 'truenp.fromstring')
+        if len(fs) != 1 or not isinstance(fs[0].args[0], ast.Name):
+            raise Untranslatable('data block is not parsed by one np.fromstring(<name>, ...)')
+        dname = fs[0].args[0].id
+        ifs = [st for st in r.body if isinstance(st, ast.If) and ('isspace' in ast.unparse(st.test) or 'endswith' in ast.unparse(st.test))]
+        if not ifs:
+            return 'def cvReaderTrailingCheck : Bool := false'      # recognised: there is no such guard
+        if len(ifs) != 1:
+            raise Untranslatable('several white-space tests')
+        st = ifs[0]
+        t = st.test
+        parts = t.values if isinstance(t, ast.BoolOp) and isinstance(t.op, ast.And) else [t]
+        neg = [p for p in parts if isinstance(p, ast.UnaryOp) and isinstance(p.op, ast.Not)
+               and ast.unparse(p.operand) == f'{dname}[-1].isspace()']
+        guard = [p for p in parts if ast.unparse(p) in (f'len({dname}) > 0', f'{dname}', f'len({dname})', f'{dname} != \'\'')]
+        if len(neg) != 1 or len(neg) + len(guard) != len(parts) or not guard:
+            raise Untranslatable(f'white-space test {ast.unparse(t)[:60]}')
+        warn = any(isinstance(x, ast.Expr) and isinstance(x.value, ast.Call) and ast.unparse(x.value.func) in ('warnings.warn', 'warn')
+                   for x in st.body)
+        sets = [x for x in st.body if isinstance(x, ast.Assign) and ast.unparse(x.targets[0]) in ('a[-1:]', 'a[-1]')
+                and ast.unparse(x.value) == 'nda']
+        masks = [x for x in r.body if isinstance(x, ast.Assign) and ast.unparse(x.targets[0]) == 'mask']
+        ok = warn and len(sets) == 1 and len(masks) == 1 and masks[0].lineno > st.lineno and not st.orelse
+        return f'def cvReaderTrailingCheck : Bool := {"true" if ok else "false"}'
+    g.item('codev.trailing', 'prysm/io.py:read_codev_gridint', None, cv_trailing, 'def cvReaderTrailingCheck : Bool := true')
+
+    # ---- Code V: header keywords the writer can emit / the reader understands
+    def cv_tokens():
+        r = get_def(io, 'read_codev_gridint')
+        loops = [st for st in r.body if isinstance(st, ast.While) and ast.unparse(st.test) in ('i < l', 'i < len(params)')]
+        if len(loops) != 1:
+            raise Untranslatable('no single header token loop')
+        table = []
+        for st in loops[0].body:
+            if isinstance(st, ast.If):
+                m = re.fullmatch(r"params\[i\]\.upper\(\) == '(\w+)'", ast.unparse(st.test))
+                if not m:
+                    raise Untranslatable(f'token test {ast.unparse(st.test)[:50]}')
+                incs = [x for x in st.body if isinstance(x, ast.AugAssign) and ast.unparse(x.target) == 'i' and isinstance(x.op, ast.Add)]
+                if len(incs) != 1 or not isinstance(incs[0].value, ast.Constant) or not isinstance(st.body[-1], ast.Continue):
+                    raise Untranslatable(f'token {m.group(1)} does not advance by a constant and continue')
+                table.append((m.group(1), incs[0].value.value - 1))
+            elif not isinstance(st, ast.Raise):
+                raise Untranslatable('unexpected statement in the token loop')
+        w = get_def(io, 'write_codev_gridint')
+        typs = None
+        for st in w.body:
+            if isinstance(st, ast.Assert) and isinstance(st.test, ast.Compare) and ast.unparse(st.test.left) == 'typ' \
+                    and isinstance(st.test.ops[0], ast.In):
+                typs = [str(x) for x in pyeval(st.test.comparators[0], consts)]
+        if not typs:
+            raise Untranslatable('no `assert typ in (...)`')
+        nnbs = sorted({v.value for v in find_assigns(w, 'nnb') if isinstance(v, ast.Constant) and isinstance(v.value, str)})
+        if not nnbs:
+            raise Untranslatable('nnb keyword strings not found')
+        tpl = fstring_template(find_assign(w, 'hdr'))
+        line = tpl.split('\n')[-2] if tpl.endswith('\n') else tpl.split('\n')[-1]
+        heads = []
+        for ty in typs:
+            for nb in nnbs:
+                txt = line.replace('{typ}', ty).replace('{nnb}', nb)
+                txt = re.sub(r'\{[^}]*\}', '#', txt)
+                heads.append(txt.split())
+        def ll(x):
+            return '[' + ', '.join('"' + re.sub(r'[^A-Za-z0-9_.#-]', '?', t) + '"' for t in x) + ']'
+        return ('def cvReaderTokens : List (String × Nat) := [' + ', '.join(f'("{k}", {n})' for k, n in table) + ']\n'
+                'def cvWriterHeaders : List (List String) := [' + ', '.join(ll(x) for x in heads) + ']')
+    g.item('codev.tokens', 'prysm/io.py:write_codev_gridint+read_codev_gridint', None, cv_tokens,
+           'def cvReaderTokens : List (String × Nat) := [("GRD", 2), ("WVL", 1), ("SSZ", 1), ("NDA", 1), ("SUR", 0)]\n'
+           'def cvWriterHeaders : List (List String) := [["GRD", "#", "#", "SUR", "WVL", "1.0", "SSZ", "#", "NDA", "-32768"]]')
+
+    # ---- Code V: text layout (number of lines must divide the number of samples or the reshape raises)
+    def cv_width():
+        w = get_def(io, 'write_codev_gridint')
+        starts = [v for v in find_assigns(w, 'width') if not ('width' in {x.id for x in ast.walk(v) if isinstance(x, ast.Name)})]
+        if len(starts) != 1:
+            raise Untranslatable('width has no single initial value')
+
+        def nat(e):
+            if isinstance(e, ast.Constant) and isinstance(e.value, int) and e.value >= 0:
+                return str(e.value)
+            if ast.unparse(e) in ('array.size', 'array.shape[0] * array.shape[1]'):
+                return 'size'
+            if isinstance(e, ast.Call) and ast.unparse(e.func) in ('min', 'max') and len(e.args) == 2:
+                return f'({ast.unparse(e.func)} {nat(e.args[0])} {nat(e.args[1])})'
+            raise Untranslatable(f'width start {ast.unparse(e)[:40]}')
+        start = nat(starts[0])
+        loops = [st for st in w.body if isinstance(st, ast.While) and 'width' in ast.unparse(st.test)]
+        if len(loops) > 1:
+            raise Untranslatable('several width loops')
+        if loops:
+            lp = loops[0]
+            if ast.unparse(lp.test).replace('(', '').replace(')', '') not in ('array.size % width != 0', 'array.size % width'):
+                raise Untranslatable(f'loop test {ast.unparse(lp.test)}')
+            if len(lp.body) != 1 or ast.unparse(lp.body[0]) != 'width -= 1':
+                raise Untranslatable('loop body is not `width -= 1`')
+            term = f'widthSearch size {start} {start}'
+        else:
+            term = start
+        resh = [v for v in find_assigns(w, 'array') if 'reshape' in ast.unparse(v)]
+        if len(resh) != 1 or ast.unparse(resh[0]).replace(' ', '') != 'array.ravel().reshape((width,array.size//width))':
+            raise Untranslatable('layout reshape changed')
+        return f'def cvWidth (size : Nat) : Nat := {term}'
+    g.item('codev.layout', 'prysm/io.py:write_codev_gridint', None, cv_width, f'def cvWidth (size : Nat) : Nat := {M}.cvLines size')
 
     # ---- Interferogram save / load: unit conversions
     def ifg_units():
@@ -739,7 +891,7 @@ def generate(repo):
         if len(augs) != 1 or not isinstance(augs[0].op, ast.Mult):
             raise Untranslatable('__init__ does not rescale the header wavelength once')
         gets = [ast.unparse(v) for v in find_assigns(init, 'wavelength')]
-        if "meta.get('wavelength', None)" not in gets:
+        if not any(x in gets for x in ("meta.get('wavelength', None)", "meta.get('wavelength')", "meta['wavelength']")):
             raise Untranslatable('__init__ does not take the wavelength from meta')
         wvr = Tr({'wavelength': 'w'}, 'rat').expr(ast.BinOp(left=ast.Name(id='wavelength', ctx=ast.Load()), op=ast.Mult(), right=augs[0].value))
         sv = get_def(ifg, 'Interferogram.save_zygo_dat')
